@@ -53,7 +53,7 @@ pub fn run(shard: &Shard) -> i32 {
     let rshard = Shard { resume: 0, ..shard.clone() };
     let max = u64::MAX;
     case_loop(&rshard, max, |_i, rng| {
-        let profile = Profile { with_dominance: true, small: rng.chance(1, 3), depth_free_bias: rng.chance(1, 3), medium_share: 2, large_share: if shard.idx % 8 == 7 { 8 } else { 0 }, ..Default::default() };
+        let profile = Profile { with_dominance: true, small: rng.chance(1, 3), depth_free_bias: rng.chance(1, 3), medium_share: 2, large_share: if shard.idx % 8 == 7 { 8 } else { 0 }, deceptive_share: if shard.idx % 8 == 7 { 3 } else { 0 }, ..Default::default() };
         let spec = random_spec(rng, &profile);
         with_family!(spec.family, eval, &spec);
         true
